@@ -32,6 +32,8 @@ import SqiGen.Tables5
 import SqiGen.EvenGuard
 import SqiModel.SkelEven
 import SqiProofs.SkelEvenSim
+import SqiProofs.SkelSmallSim
+import SqiProofs.SkelEvenConv
 
 set_option maxRecDepth 100000
 
@@ -167,6 +169,20 @@ theorem translated_even_strategy_refines (T : List (List Nat)) (tpep len M fuel 
   skel_refines T tpep len oracle fuel pl M H he
 
 open SqiProofs.SkelEvenSim in
+/-- **the tie is an equivalence on the fault status**: under the side conditions `Hyp` (row exists, bounds) the run of the
+    translated skeleton is fault-free iff the hand model is (`SqiProofs.SkelEvenConv`: converse simulation, one "dies"
+    lemma per fault site of the hand model: `push_dead`, `strat_dead`, `while_dead`, `iso_dead_slot`, `iso_dead_xd`,
+    `iter_dead`, `for_dead`, `skel_dead`).  Together with `translated_even_strategy_refines` (same final state and kernel
+    orders when fault-free) the kernel-evaluated `skeleton_agrees_small` is redundant for the strategy routine except for
+    the array-access `log`. -/
+theorem translated_even_strategy_fault_iff (T : List (List Nat)) (tpep len M fuel : Nat) (oracle : Nat → Bool) (pl : Int)
+    (H : Hyp T tpep len M fuel) (htl : T.length + len ≤ 18446744073709551616) (hfu1 : 1 ≤ fuel) :
+    let k := SqiGen.ChainSkel.ec_eval_even_strategy SqiModel.SkelEven.obs T tpep oracle fuel len pl
+        (SqiGen.ChainSkel.EvenSt.init (SqiModel.SkelEven.OSt.init len))
+    (k.fault = none ∧ k.obs.bad = false) ↔ (evalEven T tpep len).err = none :=
+  SqiProofs.SkelEvenConv.skel_live_iff T tpep len oracle fuel pl M H htl hfu1
+
+open SqiProofs.SkelEvenSim in
 /-- `even_strategy_sound` transferred to the translated text -/
 theorem translated_even_strategy_sound (T : List (List Nat)) (tpep len M L fuel : Nat) (oracle : Nat → Bool) (pl : Int)
     (hT : rowsValidD tpep T = true) (hb : tableBound M L T = true)
@@ -227,6 +243,73 @@ theorem ec_eval_even_full (f : Nat) (table : List (List Nat)) (h : rowsValidD f 
     obtain ⟨a, b, c, d⟩ := even_chain_of_rows f table h len h1 h2
     exact ⟨a, b, ⟨_, c⟩, d⟩
 
+/-! ## the naive chain and the public entry point, as translated text
+
+`SqiGen.ChainSkel.ec_eval_small_chain` is the slice of `ec_eval_small_chain` produced by tools/translate/chainskel.py (the
+scalar points `big_K`, `small_K` are slots 0, 1; the branch condition `fp2_is_zero(&small_K.x)` is a read of slot 1
+followed by an oracle that may answer differently in every iteration).  `SqiModel.SkelSmall.evalEvenTopSkel` is
+`ec_eval_even`: the condition of its `if` as re-read from the C (`SqiGen.EvenGuard.naive`) selecting between the two
+translated routines. -/
+
+open SqiProofs.SkelSmallSim SqiModel.SkelSmall in
+/-- the translated naive chain refines the hand model `smallChain` — all lengths, all exponents, every oracle -/
+theorem translated_small_chain_refines (oracle : Nat → Bool) (fuel len : Nat) (lp : Int) (e : Nat) (hfu : len ≤ fuel) :
+    let k := runSmall oracle fuel len lp e
+    k.fault = none ∧ k.obs.bad = false ∧ k.obs.nsteps = len ∧ k.obs.big = some (e - len) ∧
+    k.obs.reads = (smallChain len e).map kerOf ∧ k.obs.isos = isosOf oracle (smallChain len e) :=
+  small_refines oracle fuel len lp e hfu
+
+/-- what a correct run of the translated naive chain on a kernel generator of exact order 2^len looks like: no fault,
+    `len` steps, `small_K` has exponent exactly 1 (order 2) at every branch decision and at every `xisog_2` call, and
+    `big_K` ends as the neutral element -/
+def smallSkelOk (len : Nat) (k : SqiGen.ChainSkel.SmallSt SqiModel.SkelSmall.OSt) : Prop :=
+  k.fault = none ∧ k.obs.bad = false ∧ k.obs.nsteps = len ∧ k.obs.big = some 0 ∧
+  k.obs.reads.length = len ∧ (∀ v ∈ k.obs.reads, v = 1) ∧ (∀ v ∈ k.obs.isos, v = 1)
+
+open SqiProofs.SkelSmallSim SqiModel.SkelSmall in
+/-- `small_chain_sound` transferred to the translated text -/
+theorem translated_small_chain_sound (oracle : Nat → Bool) (fuel len : Nat) (lp : Int) (hfu : len ≤ fuel) :
+    smallSkelOk len (runSmall oracle fuel len lp len) := by
+  obtain ⟨a, b, c, d, e, f⟩ := small_refines oracle fuel len lp len hfu
+  obtain ⟨h1, h2⟩ := small_chain_sound len
+  have hk : ∀ ev ∈ smallChain len len, kerOf ev = 1 := by
+    intro ev hev
+    obtain ⟨i, _, rfl⟩ := h2 ev hev
+    rfl
+  refine ⟨a, b, c, by simpa using d, by rw [e]; simp [h1], ?_, ?_⟩
+  · intro v hv
+    rw [e] at hv
+    obtain ⟨ev, hev, rfl⟩ := List.mem_map.1 hv
+    exact hk ev hev
+  · intro v hv
+    rw [f] at hv
+    simp only [isosOf] at hv
+    obtain ⟨ev, hev, rfl⟩ := List.mem_map.1 hv
+    exact hk ev (List.mem_filter.1 hev).1
+
+/-- outcome of the translated `ec_eval_even` is a correct chain of degree 2^len -/
+def topSkelOk (len : Nat) : SqiModel.SkelSmall.TopSkel → Prop
+  | .naive k => smallSkelOk len k
+  | .strategy k => k.fault = none ∧ k.obs.bad = false ∧ k.strategy = ((len / 2 - 1 : Nat) : Int) ∧
+      (∀ e ∈ k.obs.kers, e = (6, 2) ∨ e = (8, 1)) ∧ (k.obs.kers.map SqiProofs.SkelEvenSim.kerDeg).sum = len
+
+open SqiProofs.SkelEvenSim SqiModel.SkelSmall in
+/-- **Full statement for `ec_eval_even`, entirely about translated text** (every length): the dispatch condition as
+    written in the C, the naive chain and the strategy routine as sliced from the C. -/
+theorem translated_ec_eval_even_full (T : List (List Nat)) (tpep M L fuel : Nat) (oracleS oracleE : Nat → Bool) (lp : Int)
+    (hT : rowsValidD tpep T = true) (hb : tableBound M L T = true) (htp : tpep < SqiGen.EvenGuard.W)
+    (hfu2 : 2 * M ≤ fuel) (hfur : L ≤ fuel) (hfuh : tpep ≤ fuel)
+    (hmag : L * M + tpep * M + tpep + 1 < 18446744073709551616) (len : Nat) (hlen : len ≤ fuel) :
+    topSkelOk len (evalEvenTopSkel T tpep oracleS oracleE fuel len lp) := by
+  unfold evalEvenTopSkel
+  by_cases hg : SqiGen.EvenGuard.naive len tpep T.length = true
+  · simp only [hg, if_true]
+    exact translated_small_chain_sound oracleS fuel len lp hlen
+  · have hg' : SqiGen.EvenGuard.naive len tpep T.length = false := by simpa using hg
+    simp only [hg', Bool.false_eq_true, if_false]
+    obtain ⟨h1, h2⟩ := guard_false_in_range len tpep T.length htp hg'
+    exact translated_even_strategy_sound T tpep len M L fuel oracleE lp hT hb h1 h2 hfu2 hfur hfuh hmag
+
 section L1
 open SqiGen.L1
 /-- C18-style table fact: every row `i` of STRATEGY4 is a valid strategy for ⌊(f-i)/2⌋ leaves, f-i ≥ 2, and its
@@ -275,6 +358,14 @@ theorem L1_translated_sound (len fuel : Nat) (oracle : Nat → Bool) (pl : Int) 
   exact translated_even_strategy_sound STRATEGY4 W64.TORSION_PLUS_EVEN_POWER len 100 250 fuel oracle pl
     L1_STRATEGY4_depth L1_table_bound (by omega) (by omega) (by omega) (by omega) (by omega) (by omega)
 
+/-- `ec_eval_even` at level 1, as translated text: every length an `unsigned short` can hold -/
+theorem L1_translated_ec_eval_even_full (len fuel : Nat) (oracleS oracleE : Nat → Bool) (lp : Int)
+    (hlen : len < 65536) (hf : 65536 ≤ fuel) :
+    topSkelOk len (SqiModel.SkelSmall.evalEvenTopSkel STRATEGY4 W64.TORSION_PLUS_EVEN_POWER oracleS oracleE fuel len lp) := by
+  have ⟨hf1, hn⟩ := L1_range
+  exact translated_ec_eval_even_full STRATEGY4 W64.TORSION_PLUS_EVEN_POWER 100 250 fuel oracleS oracleE lp
+    L1_STRATEGY4_depth L1_table_bound (by rw [hf1]; decide) (by omega) (by omega) (by omega) (by omega) len (by omega)
+
 /-- **FULL statement, level 1**: for every length (1 ≤ len ≤ f, indeed every `unsigned short` and beyond)
     `ec_eval_even` stays in bounds and performs a chain of degree 2^len -/
 theorem L1_ec_eval_even_full (len : Nat) :
@@ -321,6 +412,14 @@ theorem L3_translated_sound (len fuel : Nat) (oracle : Nat → Bool) (pl : Int) 
   exact translated_even_strategy_sound STRATEGY4 W64.TORSION_PLUS_EVEN_POWER len 100 250 fuel oracle pl
     L3_STRATEGY4_depth L3_table_bound (by omega) (by omega) (by omega) (by omega) (by omega) (by omega)
 
+/-- `ec_eval_even` at level 3, as translated text: every length an `unsigned short` can hold -/
+theorem L3_translated_ec_eval_even_full (len fuel : Nat) (oracleS oracleE : Nat → Bool) (lp : Int)
+    (hlen : len < 65536) (hf : 65536 ≤ fuel) :
+    topSkelOk len (SqiModel.SkelSmall.evalEvenTopSkel STRATEGY4 W64.TORSION_PLUS_EVEN_POWER oracleS oracleE fuel len lp) := by
+  have ⟨hf1, hn⟩ := L3_range
+  exact translated_ec_eval_even_full STRATEGY4 W64.TORSION_PLUS_EVEN_POWER 100 250 fuel oracleS oracleE lp
+    L3_STRATEGY4_depth L3_table_bound (by rw [hf1]; decide) (by omega) (by omega) (by omega) (by omega) len (by omega)
+
 /-- **FULL statement, level 3**: for every length (1 ≤ len ≤ f, indeed every `unsigned short` and beyond)
     `ec_eval_even` stays in bounds and performs a chain of degree 2^len -/
 theorem L3_ec_eval_even_full (len : Nat) :
@@ -366,6 +465,14 @@ theorem L5_translated_sound (len fuel : Nat) (oracle : Nat → Bool) (pl : Int) 
   have ⟨hf1, hn⟩ := L5_range
   exact translated_even_strategy_sound STRATEGY4 W64.TORSION_PLUS_EVEN_POWER len 100 250 fuel oracle pl
     L5_STRATEGY4_depth L5_table_bound (by omega) (by omega) (by omega) (by omega) (by omega) (by omega)
+
+/-- `ec_eval_even` at level 5, as translated text: every length an `unsigned short` can hold -/
+theorem L5_translated_ec_eval_even_full (len fuel : Nat) (oracleS oracleE : Nat → Bool) (lp : Int)
+    (hlen : len < 65536) (hf : 65536 ≤ fuel) :
+    topSkelOk len (SqiModel.SkelSmall.evalEvenTopSkel STRATEGY4 W64.TORSION_PLUS_EVEN_POWER oracleS oracleE fuel len lp) := by
+  have ⟨hf1, hn⟩ := L5_range
+  exact translated_ec_eval_even_full STRATEGY4 W64.TORSION_PLUS_EVEN_POWER 100 250 fuel oracleS oracleE lp
+    L5_STRATEGY4_depth L5_table_bound (by rw [hf1]; decide) (by omega) (by omega) (by omega) (by omega) len (by omega)
 
 /-- **FULL statement, level 5**: for every length (1 ≤ len ≤ f, indeed every `unsigned short` and beyond)
     `ec_eval_even` stays in bounds and performs a chain of degree 2^len -/
